@@ -1,4 +1,3 @@
-use futures::{FutureExt, future::BoxFuture};
 use std::{
     mem,
     sync::{Arc, Mutex, Weak},
@@ -230,7 +229,7 @@ impl ChannelCreditMonitor {
 pub(crate) struct ChannelCreditReturner {
     monitor: Weak<Mutex<ChannelCreditMonitorInner>>,
     to_return: u32,
-    return_fut: Option<BoxFuture<'static, ()>>,
+    return_msg: Option<(PortEvt, mpsc::Sender<PortEvt>)>,
 }
 
 impl ChannelCreditReturner {
@@ -238,7 +237,7 @@ impl ChannelCreditReturner {
     ///
     /// return_flush must have been called before this function is called.
     pub fn start_return(&mut self, credit: UsedCredit, remote_port: u32, tx: &mpsc::Sender<PortEvt>) {
-        assert!(self.return_fut.is_none(), "start_return called without return_flush");
+        assert!(self.return_msg.is_none(), "start_return called without return_flush");
 
         if let Some(monitor) = self.monitor.upgrade() {
             let mut monitor = monitor.lock().unwrap();
@@ -255,13 +254,7 @@ impl ChannelCreditReturner {
                 self.to_return = 0;
 
                 if let Err(TrySendError::Full(msg)) = tx.try_send(msg) {
-                    let tx = tx.clone();
-                    self.return_fut = Some(
-                        async move {
-                            let _ = tx.send(msg).await;
-                        }
-                        .boxed(),
-                    );
+                    self.return_msg = Some((msg, tx.clone()));
                 }
             }
         }
@@ -269,9 +262,15 @@ impl ChannelCreditReturner {
 
     /// Completes returning of credits.
     pub async fn return_flush(&mut self) {
-        if let Some(return_fut) = &mut self.return_fut {
-            return_fut.await;
-            self.return_fut = None;
+        if let Some((_, tx)) = &self.return_msg {
+            // Only the message is kept when this function is cancelled. A partially polled
+            // send future would keep its place in the queue for send space without being
+            // polled until the next receive operation, blocking all other users of the queue.
+            let tx = tx.clone();
+            let permit = tx.reserve().await;
+            if let (Some((msg, _)), Ok(permit)) = (self.return_msg.take(), permit) {
+                permit.send(msg);
+            }
         }
     }
 }
@@ -279,6 +278,6 @@ impl ChannelCreditReturner {
 /// A pair of ChannelCreditMonitor and ChannelCreditReturner.
 pub(crate) fn credit_monitor_pair(limit: u32) -> (ChannelCreditMonitor, ChannelCreditReturner) {
     let monitor = ChannelCreditMonitor(Arc::new(Mutex::new(ChannelCreditMonitorInner { used: 0, limit })));
-    let returner = ChannelCreditReturner { monitor: Arc::downgrade(&monitor.0), to_return: 0, return_fut: None };
+    let returner = ChannelCreditReturner { monitor: Arc::downgrade(&monitor.0), to_return: 0, return_msg: None };
     (monitor, returner)
 }
